@@ -83,6 +83,30 @@ def _default_leaf_handling(extra, default_spec):
     return True
 
 
+def native_overwrite_battery():
+    """real save / load SEQUENCES on one path in one process: save P1, load, save P2 (same path), load -> P2 bit-exactly; also through the other spelling of the same file"""
+    bad = []
+    n = 0
+    for spell_save, spell_load in (("ckpt", "ckpt"), ("ckpt", "ckpt.eqx"), ("d/e/ckpt.eqx", "d/e/ckpt")):
+        tmp = tempfile.mkdtemp(prefix="lvc_c18_")
+        try:
+            ps, pl = os.path.join(tmp, spell_save), os.path.join(tmp, spell_load)
+            objs = [Tiny(3, key=jax.random.key(s)) for s in (1, 2, 3)]
+            for j, obj in enumerate(objs):
+                Serializable.serialize.__wrapped__(obj, ps, False)
+                back = Tiny.deserialize(pl, 3)
+                n += 1
+                if not (np.array_equal(np.asarray(back.w), np.asarray(obj.w)) and np.array_equal(np.asarray(back.b), np.asarray(obj.b))):
+                    bad.append(dict(case=f"save #{j + 1} to '{spell_save}' then load '{spell_load}'", what="loaded parameters are not the ones just saved",
+                                    loaded_w00=float(back.w[0, 0]), saved_w00=float(obj.w[0, 0])))
+                    break
+        except Exception as e:
+            bad.append(dict(case=f"{spell_save} / {spell_load}", what=f"raised {type(e).__name__}: {str(e)[:120]}"))
+        finally:
+            shutil.rmtree(tmp, ignore_errors=True)
+    return bad, n
+
+
 def native_mismatch_battery():
     """real save -> real load into a DIFFERENT architecture must raise; includes shapes that numpy would broadcast (unit / scalar dimensions on the saved side)"""
     from lerax.policy import MLPQPolicy, MLPActorCriticPolicy
@@ -148,14 +172,20 @@ def unit_calls(S):
             rec2 = []
 
             def fake_deserialise(p, like, *a, **k):
-                rec2.append(dict(path=Path(p), like=like, extra=(a, dict(k))))
+                rec2.append(dict(path=Path(p) if isinstance(p, (str, os.PathLike)) else p, like=like, extra=(a, dict(k))))
                 return like
             real2 = U.eqx.tree_deserialise_leaves
             U.eqx.tree_deserialise_leaves = fake_deserialise
             try:
                 Tiny.deserialize(full, 3)
+            except Exception as e_:   # e.g. deserialize touching the file system itself (the stand-in wrote no file): outside the contract's shape, decided natively below
+                custom_des.append(dict(path=path, extra=f"deserialize raised before / instead of delegating: {type(e_).__name__}: {str(e_)[:120]}"))
+                continue
             finally:
                 U.eqx.tree_deserialise_leaves = real2
+            if len(rec2) == 1 and not isinstance(rec2[0]["path"], (str, os.PathLike)):
+                custom_des.append(dict(path=path, extra=f"deserialize hands equinox a {type(rec2[0]['path']).__name__} instead of the path"))
+                continue
             read = eqx_with_suffix(rec2[0]["path"]) if len(rec2) == 1 else None
             if len(rec2) == 1 and not _default_leaf_handling(rec2[0]["extra"], eqx.default_deserialise_filter_spec):
                 custom_des.append(dict(path=path, extra=str(rec2[0]["extra"])[:200]))
@@ -177,6 +207,8 @@ def unit_calls(S):
             S.fact(f"{which}/default-leaf-handling", True, function=fn_, what=f"{which} hands the leaves to equinox's default leaf (de)serialiser (no custom filter_spec / is_leaf): the assumed contract A-EQX applies")
             continue
         bad, nn = native_mismatch_battery()
+        bad_o, nn_o = native_overwrite_battery()
+        bad, nn = bad + bad_o, nn + nn_o
         if bad:
             S.fact(f"{which}/default-leaf-handling", False, function=fn_, what=f"{which} uses a custom leaf (de)serialiser and a mismatching checkpoint loads silently", detail=dict(custom=custom[:2], silent_loads=bad[:4]),
                    replay=lambda m, bad=bad: dict(reproduced=True, route="R1 (real serialize / deserialize through real equinox, mismatching architectures incl. broadcastable shapes)", observed=bad[:4]))
@@ -194,6 +226,10 @@ def unit_calls(S):
     try:
         out = Tiny.deserialize("whatever", 5)
         out2 = Tiny.deserialize("whatever", n=2, key=jax.random.key(3))
+    except Exception as e_:
+        S.undecided("deserialize/skeleton-from-requested-arguments", f"deserialize did not reach equinox with the stand-in installed ({type(e_).__name__}: {str(e_)[:100]}): see deserialize/default-leaf-handling",
+                    function=F_DES, what="skeleton built from the requested constructor arguments")
+        return
     finally:
         U.eqx.tree_deserialise_leaves = real2
     ok = len(rec3) == 2 and isinstance(rec3[0], Tiny) and rec3[0].w.shape == (5, 2) and rec3[1].w.shape == (2, 2) and isinstance(rec3[0].w, jax.ShapeDtypeStruct) and out is rec3[0]
@@ -246,7 +282,8 @@ def unit_roundtrip(S):
     S.under_contract(F_SER, F_DES)
     bad, n = native_roundtrips(int(S.seed), S.tier == "thorough")
     bad_m, n_m = native_mismatch_battery()
-    bad, n = bad + bad_m, n + n_m
+    bad_o, n_o = native_overwrite_battery()
+    bad, n = bad + bad_m + bad_o, n + n_m + n_o
     S.bounded_check("native/round-trip-and-loud-mismatch", not bad, bound=f"{n} native save/load round trips through real equinox: 4 policy classes x path spellings (incl. not-yet-existing nested directories), plus one mismatching architecture each",
                     function=F_SER + " / " + F_DES, what="loaded parameters are bit-identical; loading into mismatching shapes raises", detail=bad[:6],
                     replay=lambda m: dict(reproduced=bool(bad), route="R1", observed=bad[:6]))
